@@ -191,3 +191,38 @@ fn c03_q_oneshot_two_senders_race() {
   kani::cover!(top_won, "first sender won");
   kani::cover!(!top_won, "second sender won");
 }
+
+static TX8: AtomicPtr<Option<oneshot::Sender<u8>>> = AtomicPtr::new(std::ptr::null_mut());
+fn a_send5_u8(_a: sched::ActorId) {
+  let t = unsafe { &mut *TX8.load(Relaxed) };
+  let r = t.take().unwrap().send(5);
+  assert!(r.is_ok(), "C03: the only oneshot send failed");
+}
+fn a_drop_tx_u8(_a: sched::ActorId) {
+  let t = unsafe { &mut *TX8.load(Relaxed) };
+  *t = None;
+}
+
+/// C04 (oneshot race): one sender handle is dropped while the other clone sends / is dropped at any
+/// synchronisation point: a sent value is delivered (never Disconnected with the value lost), and with
+/// no send the receiver ends up Disconnected exactly when every clone is gone.
+#[kani::proof]
+#[kani::unwind(4)]
+fn c04_q_oneshot_sender_clones_race() {
+  let (tx, rx) = oneshot::oneshot::<u8>();
+  let mut tx2 = Some(tx.clone());
+  TX8.store(&mut tx2 as *mut _, Relaxed);
+  let other_sends: bool = kani::any();
+  sched::install(if other_sends { a_send5_u8 } else { a_drop_tx_u8 }, 1, 1);
+  drop(tx);
+  sched::run_pending();
+  sched::uninstall();
+  let r = rx.try_recv();
+  if other_sends {
+    assert!(r == Ok(5), "C04: a value sent by a live sender clone was not delivered");
+  } else {
+    assert!(r == Err(TryRecvError::Disconnected), "C04: no Disconnected after every sender clone was dropped");
+  }
+  kani::cover!(other_sends, "the other clone sent");
+  kani::cover!(!other_sends, "both clones dropped");
+}
